@@ -8,6 +8,9 @@ Types and values travel in a prefix encoding, one token per word:
 
   ty  ::= t | ts | tw | ta | u | h <tag> <n> aty^n ty | p <n> ty^n | o ty | e <n> ty^n | v ty | a
         | r <n> ty        (t = String, ts = &'static str, tw = Cow<'static,str>, ta = Arc<str>; r = [T; n])
+        | sv ty           (StaticVec<T>, value = <n> val^n: no marker node, `rebuild` = unmount everything, build the
+                           new items, mount them at the END of the parent; accepted at top level and as the one
+                           child of a top-level element, see `stepSv`)
         | x aty ty        (attribute spreading `view.add_any_attr(attr)`: value = attribute value, view value;
                            the model adds the item to every top-level element: `Ty.spread` / `View.spread`)
   aty ::= base | base~<f><c><k>     base ::= s:<name> | os:<name> | b:<name> | c | oc | tc | y | oy | py | opy
@@ -83,6 +86,7 @@ inductive PTy where
   | either (ts : List PTy)
   | vec (t : PTy)
   | spread (a : AttrTy) (t : PTy)
+  | svec (t : PTy)
 
 mutual
 def PTy.toTy : PTy → Ty
@@ -96,6 +100,7 @@ def PTy.toTy : PTy → Ty
   | .either ts => .either (PTy.toTyList ts)
   | .vec t => .vec t.toTy
   | .spread a t => Ty.spread a t.toTy
+  | .svec t => .arr 0 t.toTy
 def PTy.toTyList : List PTy → List Ty
   | [] => []
   | t :: ts => t.toTy :: PTy.toTyList ts
@@ -115,6 +120,9 @@ def parseTy : Nat → P PTy
       let n ← n.toNat?
       let (t, r) ← parseTy f r
       pure (.arr n t, r)
+    | "sv" :: r => do
+      let (t, r) ← parseTy f r
+      pure (.svec t, r)
     | "x" :: a :: r => do
       let a ← parseATy a
       let (t, r) ← parseTy f r
@@ -184,6 +192,7 @@ inductive PVal where
   | vec (vs : List PVal)
   | any (t : PTy) (v : PVal)
   | spread (a : AttrVal) (v : PVal)
+  | svec (vs : List PVal)
 
 mutual
 def PVal.toView : PVal → View
@@ -197,6 +206,7 @@ def PVal.toView : PVal → View
   | .vec vs => .vec (PVal.toViews vs)
   | .any t v => .any t.toTy v.toView
   | .spread a v => View.spread a v.toView
+  | .svec vs => .tuple (PVal.toViews vs)
 def PVal.toViews : List PVal → List View
   | [] => []
   | v :: vs => v.toView :: PVal.toViews vs
@@ -246,6 +256,10 @@ def parseVal : Nat → PTy → P PVal
       let (av, r) ← pAttrVal a r
       let (v, r) ← parseVal f t r
       pure (.spread av v, r)
+    | .svec t, n :: r => do
+      let n ← n.toNat?
+      let (vs, r) ← parseN (parseVal f t) n r
+      pure (.svec vs, r)
     | _, _ => none
 
 /-! canonical output -/
@@ -404,6 +418,46 @@ def emit (s : St) (v : Option View) : St × String :=
   | some v => (clearErrs s, o ++ " ## " ++ verdict s v)
   | none => (s, o)
 
+/-! `StaticVec` (C03-local: the shared `View` / `State` have no constructor for it).  Its state is
+a tuple state (no marker); `build` / `mount` / `unmount` are the tuple's; `rebuild` is
+`StaticVec::rebuild`: unmount every old item, build the new ones, mount them with no marker, i.e.
+at the END of the parent. -/
+
+/-- where a `StaticVec` sits in the travelling type -/
+inductive SvPos | none | top | child
+
+def svPos : PTy → SvPos
+  | .svec _ => .top
+  | .elem _ _ (.tuple [.svec _]) => .child
+  | _ => .none
+
+/-- shape check of a value against its travelling type (`StaticVec` items checked one by one) -/
+def accepts : PTy → PVal → Bool
+  | .svec t, .svec vs => t.toTy.shapeOk && vs.all fun v => hasShape v.toView t.toTy
+  | .elem tag ats (.tuple [.svec t]), .elem tag' as (.tuple [.svec vs]) =>
+    tag == tag' && as.map AttrVal.ty == ats && nodupS (namedKeys ats) && !isVoid tag &&
+    t.toTy.shapeOk && vs.all fun v => hasShape v.toView t.toTy
+  | ty, v => ty.toTy.shapeOk && hasShape v.toView ty.toTy
+
+/-- `rebuild` of a value whose type has a `StaticVec` at `pos` -/
+def rebuildSv (pos : SvPos) (root : Id) (prev : Option View) (v : View) (st : State) (d : Dom) :
+    Dom × State :=
+  match pos, v, st with
+  | .top, v, st =>
+    let d := unmount st d
+    let (d, st') := build v d
+    (mount st' d root none, st')
+  | .child, .elem tag as (.tuple [items]), st =>
+    -- the element's attributes are rebuilt, its child is the `StaticVec`
+    let old := match prev with | some (.elem _ _ c) => c | _ => .tuple [items]
+    match rebuild false (.elem tag as old) st d with
+    | (d, .elem id ast (some (.tuple [svSt]))) =>
+      let d := unmount svSt d
+      let (d, svSt') := build items d
+      (mount svSt' d id none, .elem id ast (some (.tuple [svSt'])))
+    | r => r
+  | _, v, st => rebuild false v st d
+
 def step (s : St) (line : String) : St × String :=
   if s.dead && (words line).head? != some "case" then (s, "dead ## " ++ failClass s "panic") else
   match words line with
@@ -424,7 +478,7 @@ def step (s : St) (line : String) : St × String :=
       match parseVal (rest.length + 4096) ty r with
       | some (pv, []) =>
         let v := pv.toView
-        if !(ty.toTy.shapeOk && hasShape v ty.toTy) then (s, "bad-op") else
+        if !(accepts ty pv) then (s, "bad-op") else
         let (d, st) := build v s.dom
         let d := mount st d s.root s.post.head?
         emit (addFlags { s with dom := d, ty := some ty, st := some st } pv) (some v)
@@ -436,8 +490,8 @@ def step (s : St) (line : String) : St × String :=
       match parseVal (rest.length + 4096) ty rest with
       | some (pv, []) =>
         let v := pv.toView
-        if !(ty.toTy.shapeOk && hasShape v ty.toTy) then (s, "bad-op") else
-        let (d, st) := rebuild false v st s.dom
+        if !(accepts ty pv) then (s, "bad-op") else
+        let (d, st) := rebuildSv (svPos ty) s.root s.prev v st s.dom
         emit (addFlags { s with dom := d, st := some st } pv) (some v)
       | _ => (s, "bad-op")
     | _, _ => (s, "bad-op")
